@@ -166,7 +166,7 @@ func genCase(t *rapid.T) Case {
 	ns := rapid.SampledFrom([]int{0, 0, 1, 1, 1, 2, 2, 3}).Draw(t, "nseeds")
 	alias := false
 	for i := 0; i < ns; i++ {
-		kinds := []string{"identical", "edit", "edit", "inplace", "inplace", "shuffle", "unrelated", "empty", "dup", "missingfile"}
+		kinds := []string{"identical", "edit", "edit", "inplace", "inplace", "shuffle", "unrelated", "empty", "dup", "missingfile", "unopenable"}
 		if !alias {
 			kinds = append(kinds, "alias")
 		}
@@ -188,7 +188,10 @@ func genCase(t *rapid.T) Case {
 				s.DupOf = rapid.IntRange(0, i-1).Draw(t, "dupof")
 			}
 		}
-		if s.Kind != "empty" && s.Kind != "dup" && s.Kind != "missingfile" && rapid.IntRange(0, 2).Draw(t, "stale?") == 0 {
+		if s.Kind == "unopenable" {
+			s.Len = rapid.IntRange(0, 1).Draw(t, "how") // 0: symlink loop (ELOOP), 1: below a regular file (ENOTDIR)
+		}
+		if s.Kind != "empty" && s.Kind != "dup" && s.Kind != "missingfile" && s.Kind != "unopenable" && rapid.IntRange(0, 2).Draw(t, "stale?") == 0 {
 			s.Stale = rapid.SampledFrom([]string{"flip", "flip", "trunc", "extend", "replace"}).Draw(t, "stale")
 			s.StaleArg = rapid.IntRange(0, 1<<20).Draw(t, "stalearg")
 		}
@@ -299,7 +302,7 @@ func run(c Case) (o hx.Outcome) {
 	// seeds
 	var seeds []desync.Seed
 	var built []builtSeed
-	aliasSeed, missingSeed, emptySeed, staleSeed, inplaceSeed := false, false, false, false, false
+	aliasSeed, missingSeed, emptySeed, staleSeed, inplaceSeed, unopenableSeed := false, false, false, false, false, false
 	var aliasData []byte
 	emu := cloneemu.New(c.Clone)
 	desync.VerifClone = emu
@@ -332,6 +335,8 @@ func run(c Case) (o hx.Outcome) {
 			}
 		case "unrelated":
 			bs.data = gen.RandBytes(s.Len, s.Seed)
+		case "unopenable":
+			bs.data = blob // the index matches the blob, so the seed gets planned
 		case "empty", "missingfile":
 			bs.data = nil
 		case "dup":
@@ -376,6 +381,15 @@ func run(c Case) (o hx.Outcome) {
 			aliasData = bs.disk
 		case "missingfile":
 			missingSeed = true
+		case "unopenable":
+			// the seed's blob exists as a name but cannot be opened, and not with ENOENT
+			unopenableSeed = true
+			if s.Len%2 == 0 {
+				os.Symlink(filepath.Base(bs.path), bs.path) // points at itself: ELOOP
+			} else {
+				os.WriteFile(bs.path+".file", []byte("x"), 0o644)
+				bs.path = filepath.Join(bs.path+".file", "below") // ENOTDIR
+			}
 		case "empty":
 			emptySeed = true
 			os.WriteFile(bs.path, nil, 0o644)
@@ -480,9 +494,9 @@ func run(c Case) (o hx.Outcome) {
 		}
 	}
 	storeComplete := len(c.Missing) == 0 && len(c.FailGet) == 0
-	seedsOK := !staleSeed && !missingSeed
+	seedsOK := !staleSeed && !missingSeed && !unopenableSeed
 	live := storeComplete && incons == "" && !aliasSeed &&
-		(seedsOK || c.Action%3 == 1 || (c.Action%3 == 2 && !missingSeed))
+		(seedsOK || c.Action%3 == 1 || (c.Action%3 == 2 && !missingSeed && !unopenableSeed))
 	if live && err != nil {
 		o.Fail("C01:fails-with-complete-store"+cl, "store complete and seeds consistent (or skip/regenerate chosen) but AssembleFile failed: %v (blob %d bytes, %d chunks, sizes %v, n=%d, prior=%s, action=%d, seeds=%d stale=%v empty=%v, clone log=%v)",
 			err, len(blob), len(spans), sz, n, priorKind, c.Action, len(seeds), staleSeed, emptySeed, emu.Log)
@@ -501,6 +515,9 @@ func run(c Case) (o hx.Outcome) {
 	}
 	if staleSeed {
 		o.Class("stale-seed")
+	}
+	if unopenableSeed {
+		o.Class("unopenable-seed")
 	}
 	if emptySeed && staleSeed && c.Action%3 == 2 {
 		o.Class("regenerate+empty+stale")
@@ -586,7 +603,7 @@ var spec = &hx.Spec[Case]{
 		"non-trivial = at least one chunk came from a seed, was found in place, or bytes were cloned; distinct by (content hash, sizes, seed kinds, prior, action, n, clone, inconsistency)",
 	Assumptions: []string{"block cloning is emulated in-process (rules of fs/remap_range.c), real reflink filesystems are not available", "worker interleavings perturbed at hook sites, not enumerated", "chunk IDs recomputed with crypto/sha512"},
 	Required: []string{"action:bailout", "action:skip", "action:regenerate", "prior:absent", "prior:empty", "prior:garbage", "prior:longer", "prior:shorter", "prior:older", "prior:exact",
-		"empty-blob", "empty-seed", "alias-seed", "stale-seed", "clone-on:max<block", "clone-on:min>block", "clone-on:inplace-seed", "clone-on:isolated-small-null-chunk",
+		"empty-blob", "empty-seed", "alias-seed", "stale-seed", "unopenable-seed", "clone-on:max<block", "clone-on:min>block", "clone-on:inplace-seed", "clone-on:isolated-small-null-chunk",
 		"chunks-from-seed", "chunks-in-place", "bytes-cloned", "liveness-demanded", "inconsistent-index:size-shift"},
 	Gen:      genCase,
 	Run:      run,
